@@ -842,8 +842,12 @@ impl<A: Zeroize + NewBytes + ResizableBytes + Lockable<A>> NewLockedFromSlice<A>
     fn from_slice_into_locked(
         src: &[u8],
     ) -> Result<Protected<Self, traits::ReadWrite, traits::Locked>, crate::error::Error> {
-        let mut res = Self::new_bytes().mlock()?;
-        res.resize(src.len(), 0);
+        // size the buffer while it is still unlocked: resizing a locked region has to
+        // lock a fresh allocation and panics if that fails, whereas here a refused
+        // lock is reported as an error. `src` is only copied once the lock is held.
+        let mut unlocked = Self::new_bytes();
+        unlocked.resize(src.len(), 0);
+        let mut res = unlocked.mlock()?;
         res.as_mut_slice().copy_from_slice(src);
         Ok(res)
     }
